@@ -408,7 +408,8 @@ func sameVoterQueue(a, b string) bool {
 }
 
 func c18History(c *vc.Ctx, idx int) {
-	cfg := lockCfg{Label: "c18", NVals: 2 + idx%3, MaxVals: 4, Blocks: c.Pick(70, 160), Protect0: true, NRelayers: 2 + idx%2, JumpTime: idx%3 == 0,
+	cfg := lockCfg{Label: "c18", NVals: 2 + idx%3, MaxVals: int64([]int{4, 2, 4}[idx%3]), Blocks: c.Pick(70, 160), // every third history has two seats only: funded candidates wait outside the set at most exports
+		Protect0: true, NRelayers: 2 + idx%2, JumpTime: idx%3 == 0,
 		W: lockWeights{Create: 12, Lock: 40, Unlock: 40, Claim: 25, Grant: 8, Weight: 8, Threshold: 8, Absent: 25, Evidence: 6, DustLock: 10, BigUnlock: 15},
 		Params: func(p *lockingtypes.Params) {
 			p.UnlockDuration = 15 * time.Second
